@@ -178,7 +178,7 @@ func c13Judge(c *fw.Ctx, env types.EnvType, name string, exprs []*canon.Node, mo
 }
 
 var c13Arity = map[string][]int{
-	"list": {0, 1, 2}, "vector": {0, 1, 2}, "hash-map": {0, 2, 3}, "hash-set": {0, 1, 2}, "set": {1}, "range": {2}, "vec": {1}, "cons": {2}, "concat": {0, 1, 2, 3},
+	"list": {0, 1, 2}, "vector": {0, 1, 2}, "hash-map": {0, 2, 3, 4}, "hash-set": {0, 1, 2}, "set": {1}, "range": {2}, "vec": {1}, "cons": {2}, "concat": {0, 1, 2, 3},
 	"nth": {2}, "first": {1}, "rest": {1}, "count": {1}, "empty?": {1}, "conj": {1, 2, 3}, "seq": {1}, "map": {2}, "apply": {2, 3}, "take": {1, 2}, "take-last": {2},
 	"drop": {2}, "drop-last": {1, 2}, "subvec": {2, 3}, "assoc": {1, 2, 3, 4}, "dissoc": {1, 2, 3}, "get": {2}, "contains?": {2}, "keys": {1}, "vals": {1}, "merge": {2},
 	"rename-keys": {2}, "get-in": {2}, "assoc-in": {3}, "update": {3}, "update-in": {3},
@@ -262,6 +262,15 @@ func runC13(c *fw.Ctx) {
 					if clsFew(it.class) {
 						few = append(few, it)
 					}
+				}
+				if name == "hash-map" {
+					// (hash-map k v k v): every pair of keys, equal keys included (the later value wins)
+					for _, k1 := range keys {
+						for _, k2 := range keys {
+							tuples = append(tuples, []c13Item{k1, gen.Pick(rg, few), k2, gen.Pick(rg, few)})
+						}
+					}
+					break
 				}
 				for _, a := range pool {
 					for _, k1 := range keys {
